@@ -238,6 +238,20 @@ def dispatcher_reset(fn):
     return found[0]
 
 
+OBSERVERS = ("build_mlsx_string", "_build_mlsx_facts_from_stats", "build_list_string", "build_list_mtime", "mlst", "mlsd", "list")
+
+
+def observer_state(srv):
+    """sorted names of the attributes of `self` that the builders of MLST / MLSD / LIST answers touch"""
+    out = set()
+    for name in OBSERVERS:
+        fn = find_method(srv, name)
+        for n in ast.walk(fn):
+            if isinstance(n, ast.Attribute) and isinstance(n.value, ast.Name) and n.value.id == "self":
+                out.add(n.attr)
+    return sorted(out)
+
+
 def connection_offset_init(fn):
     """the restart_offset= / transfer_offset= keyword arguments of the Connection(...) call in the dispatcher"""
     out = []
@@ -421,6 +435,7 @@ def generate(src_dir):
         ("xf_rest_body", slist(rest_body)),
         ("xf_reset_stmt", slist(reset)),
         ("xf_offset_init", slist(connection_offset_init(disp))),
+        ("xf_observer_state", slist(observer_state(srv))),
         ("xf_backend_wiring", slist(wiring)),
         ("xf_nursery_call", slist(stmts(find_method(nursery, "__call__").body))),
         ("xf_iter_anext", slist(anext)),
